@@ -1,4 +1,7 @@
-ser_coll!(PlutusData, NativeScript);
+ser_coll!(PlutusData, NativeScript, PlutusScript);
+#[verifier::external_body] pub struct Language { _p: core::marker::PhantomData<u8> }
+#[verifier::external_body] pub struct LangSetTypes { _p: core::marker::PhantomData<u8> }
+impl PlutusScript { pub uninterp spec fn lang(&self) -> Language; }
 pub enum CborSetType { Tagged, Untagged }
 pub open spec fn flat<T: Ser>(s: Seq<T>) -> Seq<Tok> decreases s.len() { if s.len() == 0 { Seq::empty() } else { flat(s.drop_last()) + s.last().enc() } }
 pub proof fn lemma_flat_step<T: Ser>(s: Seq<T>, i: int) requires 0 <= i < s.len() ensures flat(s.take(i + 1)) == flat(s.take(i)) + s[i].enc()
